@@ -1,1 +1,1 @@
-import Driver.WaterOps
+import Driver.Dispatch
